@@ -32,6 +32,7 @@ import (
 	lt "github.com/metrico/qryn/reader/logql/logql_transpiler_v2"
 	ip "github.com/metrico/qryn/reader/logql/logql_transpiler_v2/internal_planner"
 	"github.com/metrico/qryn/reader/logql/logql_transpiler_v2/shared"
+	"github.com/metrico/qryn/writer/utils/heputils/cityhash102"
 	"verif/harness/hx"
 )
 
@@ -910,7 +911,7 @@ func le64(x uint64) []byte {
 	return b
 }
 
-// runFP: the oracle CH64 values of every k+v of the label set and of the 24 descriptor bytes (computed here
+// runFP: the oracle CH64 values of every key and every value of the label set and of the 24 descriptor bytes (computed here
 // from the same library), and the fingerprint the real code returns
 func runFP(c *Case) {
 	c.FPPairs = nil
@@ -922,13 +923,17 @@ func runFP(c *Case) {
 	}
 	sort.Strings(ks)
 	seen := map[string]bool{}
-	for _, k := range ks {
-		s := k + c.FPLabels[k]
+	add := func(s string) uint64 {
 		h := city.CH64([]byte(s))
 		if !seen[s] {
 			seen[s] = true
 			c.FPPairs = append(c.FPPairs, PFH{S: hx.Hex(s), H: h})
 		}
+		return h
+	}
+	for _, k := range ks {
+		// key and value hashed separately; the mix (cityhash102.Hash128to64) is modelled in Coq, not tabulated
+		h := cityhash102.Hash128to64(cityhash102.Uint128{add(k), add(c.FPLabels[k])})
 		d[0] += h
 		d[1] ^= h
 		d[2] *= 1779033703 + 2*h
